@@ -264,6 +264,8 @@ def run(res, info):
                 missing = (fmt == "naunet" and proc in ("photon", "cosmicray") and mname != "base") or (fmt != "uclchem" and proc == "h2" and mname in ("rr07", "rr07x"))
                 if m[0] == "ok" and missing:
                     m = ["refused", "AttributeError"]       # the format does not register a symbol the builder needs
+                if m[0] == "ok" and m[-1] != "1":
+                    res.violation("correspondence", f"an atom of {mname}/{proc}/{fmt} is outside the hypothesis of beautify_bridge: {mags}", case)
                 if (m[0], m[1]) != (i[0], i[1]) and not (m[0] == "refused" and i[0] == "refused" and missing):
                     res.corr_disagreements += 1
                     res.violation("correspondence", f"{mname}/{proc}/{fmt} {reac}->{prod} alpha={alpha!r} group={group}: implementation {i} vs model {m[:2]}", case)
